@@ -197,7 +197,7 @@ bool Executor::native(State &s, CallBase *cb, Function *f, std::vector<Val> &a, 
                 s.inputs.push_back({key, v}); ret = v; return true;
             }
             int k = s.nameCount[nm]++; std::string key = nm + "#" + std::to_string(k);
-            { auto fx = opt.fixedChoice.find(nm); if (fx != opt.fixedChoice.end()) {
+            { auto fx = opt.fixedChoice.find(key); if (fx == opt.fixedChoice.end()) fx = opt.fixedChoice.find(nm); if (fx != opt.fixedChoice.end()) {
                 if (fx->second >= cnt) { pathsKilledAssume++; ended = true; return false; }
                 s.inputs.push_back({key, mkInt(32, fx->second)}); s.choices.push_back(key + "=" + std::to_string(fx->second)); ret = mkInt(32, fx->second); return true; } }
             for (uint64_t i = cnt; i-- > 1;) {
